@@ -50,11 +50,32 @@ def _f(a):
 # ----------------------------------------------------------------------------------------------
 # cross-sections
 # ----------------------------------------------------------------------------------------------
-def write_pickle_xsec(path, tab, name='H2O'):
+class _Py2Pickler(pickle._Pickler):
+    """Protocol-2 pickles as Python 2 wrote them: byte strings (the raw data of numpy arrays) go out as 8-bit STRING
+    opcodes.  Python 3 reads those as text: with the default ASCII codec it raises UnicodeDecodeError on the first byte
+    above 127, with encoding='latin1' it gets the bytes back (the documented way to read such files)."""
+
+    def save_bytes(self, obj):
+        import struct
+        n = len(obj)
+        if n < 256:
+            self.write(pickle.SHORT_BINSTRING + struct.pack('<B', n) + obj)
+        else:
+            self.write(pickle.BINSTRING + struct.pack('<i', n) + obj)
+        self.memoize(obj)
+
+    dispatch = dict(pickle._Pickler.dispatch)
+    dispatch[bytes] = save_bytes
+
+
+def write_pickle_xsec(path, tab, name='H2O', py2=False):
     d = {'name': name, 'wno': _f(tab['wn']), 't': _f(tab['T']),
          'p': _f(tab['P']) / PA_PER_UNIT['bar'], 'xsecarr': _f(tab['x']) * CM2_PER_M2}
     with open(path, 'wb') as f:
-        pickle.dump(d, f)
+        if py2:
+            _Py2Pickler(f, protocol=2).dump(d)
+        else:
+            pickle.dump(d, f)
     return path
 
 
